@@ -292,7 +292,7 @@ def isLinkLocal (a : Bytes) : Bool :=
 def encNexthop (afi safi : Nat) (nh ll : Bytes) : Bytes :=
   let addrs : List Bytes :=
     if nh.length ≠ 0 && (afi = 2 || nh.length = 16) then
-      (if isLinkLocal ll then [as16 nh, ll ++ List.replicate (16 - ll.length) 0] else [as16 nh])
+      (if isLinkLocal ll then [as16 nh, as16 ll] else [as16 nh])
     else if nh.length ≠ 0 then [nh]
     else []
   if safi = 133 ∨ safi = 134 then []
